@@ -235,7 +235,7 @@ HEAVY = {"calls", "recursion", "incdec", "compound", "nested_loops", "long_arith
 
 # programs whose address arithmetic multiplies by constants: with SYMBOLIC constants the obligations become
 # symbolic x symbolic products under array reads, which z3 does not decide in reasonable time
-NO_SYMCONST = {"global_array", "local_array", "store_load_alias_store", "pointer_arg", "struct", "store_narrowload_store"}
+NO_SYMCONST = {"const_fold", "global_array", "local_array", "store_load_alias_store", "pointer_arg", "struct", "store_narrowload_store"}
 
 
 def jobs_for(prop, tier, seed):
@@ -250,7 +250,7 @@ def jobs_for(prop, tier, seed):
             levels = ("2",)
         else:
             singles = SINGLE
-            levels = ("1", "2", "s", "3")
+            levels = ("1", "2", "s")
         for nm in singles:
             if nm in symc and p not in NO_SYMCONST:
                 js.append(("mk_pass", dict(prop=prop, prog=p, config=f"pass:{nm}", symconst=True)))
@@ -263,7 +263,7 @@ def jobs_for(prop, tier, seed):
     # IR-level CFG skeleton family (phis, joins, self loops, double edges): CFG-rewriting passes + pipeline
     for nm in irprogs.names(tier, seed):
         for cfg in ("pass:CleanPass", "level:2", "seq:Mem2RegPromotor+ConstantFolder+CJumpPass+CleanPass") if tier == "quick" \
-                else ("pass:CleanPass", "pass:Mem2RegPromotor", "pass:CJumpPass", "pass:TailCallOptimization", "level:2", "level:3",
+                else ("pass:CleanPass", "pass:Mem2RegPromotor", "pass:CJumpPass", "pass:TailCallOptimization", "level:2", "level:s",
                       "seq:Mem2RegPromotor+ConstantFolder+CJumpPass+CleanPass"):
             js.append(("mk_pass", dict(prop=prop, prog=nm, config=cfg, symconst=False)))
     only = os.environ.get("VERIF_ONLY")
